@@ -301,6 +301,10 @@ func (w *world) assign(ctx context.Context, method string) jrpc2.Handler {
 					// an *Error whose Data are not valid JSON: the reply must still be an error response
 					ret = "bad"
 					return nil, &jrpc2.Error{Code: 7, Message: fmt.Sprintf("handler error %d", p.K), Data: json.RawMessage(`{"k":`)}
+				case o == "emptyraw":
+					// an empty pre-encoded result cannot be marshalled either: an error response
+					ret = "bad"
+					return json.RawMessage{}, nil
 				case o == "badraw":
 					// a pre-encoded result that is not valid JSON: cannot be marshalled either
 					ret = "bad"
